@@ -86,14 +86,17 @@ def datapkts_to_ptfr(
             ptfr = _new_ptfr(ptfr_len, streamid, golay)
             # Maybe the  PTFP is bigger than one frame, then split it across PTFRs.
             while len(remainder) > ptfr_len:
-                ptfr.ptdp_offset = 0x3FF  # Signifies that we have all PTDP payload
+                ptfr.ptdp_offset = 0x7FF  # Reserved value: no PTDP begins in this frame
                 ptfr.add_payload(remainder[:ptfr_len])
                 yield ptfr  # Frame is full
                 remainder = remainder[ptfr_len:]  # If we have more data then save it for the next frame
                 ptfr = _new_ptfr(ptfr_len, streamid, golay)
 
             # Point to the first offset of the frame.
-            ptfr.ptdp_offset = len(remainder)
+            if len(remainder) == ptfr_len:
+                ptfr.ptdp_offset = 0x7FF  # The tail fills the frame exactly so no PTDP begins in it
+            else:
+                ptfr.ptdp_offset = len(remainder)
             # Add the PTDS to the frame
             remainder = ptfr.add_payload(remainder)
 
